@@ -1123,14 +1123,16 @@ def reviewed_cursor_fact(q, f, st):
 
 # ---- R5 -------------------------------------------------------------------------------------------
 
-def containment(ctx, report):
+def containment(ctx, report, RULE='C03.R5', only=None):
     model = ctx.model
     for cname, lenkey, kind in FRAMING:
+        if only is not None and not only(cname, lenkey, kind):
+            continue
         c = model.try_cls(cname)
         if c is None:
-            report.error('C03.R5: framing unit %s vanished' % cname)
+            report.error(RULE + ': framing unit %s vanished' % cname)
             continue
-        report.count('C03.R5')
+        report.count(RULE)
         if kind in ('asn1', 'text'):
             continue
         cn = ctx.canon.canon(c, 'parse')
@@ -1141,13 +1143,13 @@ def containment(ctx, report):
             # evaluated against its wire format - length reported, trailing bytes ignored, every prefix short (sa/codecs.py)
             ev = EVALUATED_CODECS[cname](ctx)
             if ev['evaluated']:
-                report.count('C03.R5', ev['runs'])
+                report.count(RULE, ev['runs'])
                 if 'parse' in ev['problems']:
-                    report.add('C03.R5', cons + '@codec', ev['problems']['parse'])
+                    report.add(RULE, cons + '@codec', ev['problems']['parse'])
                 continue
         ms = min_size(cn.elements, ctx.canon)
         if ms < 1:
-            report.add('C03.R5', cons + '@empty', 'the layout accepts an empty input: a frame would consume 0 bytes')
+            report.add(RULE, cons + '@empty', 'the layout accepts an empty input: a frame would consume 0 bytes')
         if not lenkey:
             if cname == 'SslRecord':
                 ssl_record(ctx, report, c, cn, cons)
@@ -1163,7 +1165,7 @@ def containment(ctx, report):
                     lenkey = le.key
                     break
         if not lens:
-            report.add('C03.R5', cons + '@length[%s]' % lenkey, 'declared length field is not read')
+            report.add(RULE, cons + '@length[%s]' % lenkey, 'declared length field is not read')
             continue
         le = lens[0]
         link = getattr(le, 'link', None)
@@ -1181,11 +1183,11 @@ def containment(ctx, report):
                         governed.add(id(d))
         loose = [e for e in after if id(e) not in governed and fixed_size(e, ctx.canon) is None]
         if loose:
-            report.add('C03.R5', cons + '@containment[%s]' % lenkey,
+            report.add(RULE, cons + '@containment[%s]' % lenkey,
                        'elements after the declared length are parsed on the unbounded remainder, not inside the declared %s bytes: %s' % (
                            lenkey, ', '.join(x.sig() + ('@%s' % x.key if x.key else '') for x in loose)))
         else:
-            report.sample({'rule': 'C03.R5', 'class': cname, 'length': lenkey, 'body': [x.sig() for x in after][:6], 'verdict': 'contained'}, 30)
+            report.sample({'rule': RULE, 'class': cname, 'length': lenkey, 'body': [x.sig() for x in after][:6], 'verdict': 'contained'}, 30)
 
 
 def is_governed_by(e, lenkey):
